@@ -39,3 +39,89 @@ def _csv_reader(L, fh, **kw):
     if not (isinstance(v, tuple) and v[0] == 'rows'):
         raise Unsupported('csv.reader of a file without row content')
     return list(v[1])
+
+
+# ---------------------------------------------------------------- abstract CSV files of symbolic length
+# A file with content ('symrows', n) is a sequence of n rows; row i is an abstract record whose fields are abstract strings.
+# What the string layer does with a field is ASSUMED (uninterpreted functions of (row, column)):
+#   float(field)      parses (FLOAT_OK) to FLOAT_VAL, else ValueError
+#   int(field)        INT_VAL (the contract's precondition says where this must parse)
+#   field == ''       IS_EMPTY ;  field.lower() == 'lon'  IS_LON
+#   strptime(field)   see contracts/catfile.py
+import z3
+from .core import to_z3, simp
+
+FLOAT_OK = z3.Function('csv_float_ok', z3.IntSort(), z3.IntSort(), z3.BoolSort())
+FLOAT_VAL = z3.Function('csv_float', z3.IntSort(), z3.IntSort(), z3.RealSort())
+INT_VAL = z3.Function('csv_int', z3.IntSort(), z3.IntSort(), z3.IntSort())
+IS_EMPTY = z3.Function('csv_is_empty', z3.IntSort(), z3.IntSort(), z3.BoolSort())
+IS_LON = z3.Function('csv_is_lon_header', z3.IntSort(), z3.BoolSort())
+
+
+def csv_field(row, col, lowered=False):
+    row, col = to_z3(row), to_z3(col)
+
+    def as_float(I):
+        if I.ctx.branch(z3.Not(FLOAT_OK(row, col))):
+            raise PyRaise(builtin_exc('ValueError'), 'could not convert string to float')
+        return FLOAT_VAL(row, col)
+
+    def as_int(I):
+        return INT_VAL(row, col)
+
+    def eq_value(I, other):
+        if other == '':
+            return IS_EMPTY(row, col)
+        if other is None:
+            return False
+        if isinstance(other, str) and lowered and other == 'lon' and simp(col == 0) is True:
+            return IS_LON(row)
+        raise Unsupported('comparison of a csv field with %r' % (other,))
+    f = Opaque('csvfield', is_str=True, row=row, col=col, as_float=as_float, as_int=as_int, eq_value=eq_value,
+               truth=z3.Not(IS_EMPTY(row, col)))
+    return f
+
+
+@method('csvfield', 'lower')
+def _csvfield_lower(L, f):
+    return csv_field(f.row, f.col, lowered=True)
+
+
+def csv_row(i):
+    i = to_z3(i)
+
+    def getitem(I, k):
+        if isinstance(k, slice):
+            raise Unsupported('slice of a csv row')
+        return csv_field(i, k)
+    return Opaque('csvrow', idx=i, getitem=getitem)
+
+
+_prev_csv_reader = _csv_reader
+
+
+@model('csv.reader')
+def _csv_reader2(L, fh, **kw):
+    files = L.ctx.ghost.setdefault('files', {})
+    v = files.get(fh.fname)
+    if isinstance(v, tuple) and v[0] == 'symrows':
+        return Opaque('csvrows', n=v[1])
+    return _prev_csv_reader(L, fh, **kw)
+
+
+@model('os.path.isfile')
+def _isfile(L, name):
+    return name in L.ctx.ghost.setdefault('files', {})
+
+
+@model('os.path.isdir')
+def _isdir(L, name):
+    return False
+
+
+@model('os.path.basename')
+def _basename(L, name):
+    import os
+    if not isinstance(name, str):
+        raise Unsupported('basename of a symbolic path')
+    return os.path.basename(name)
